@@ -22,9 +22,8 @@ of a fabric that went away is given to the next one.
 6. **Ghost generations** (`noDangling_always`, `restart_noDangling`, `noDangling_calm`): every fabric
    gets a fresh generation id at `AddNOC`; a session / resumption record carries the generation it was
    made for.  `NoDangling`: whatever is usable refers to a fabric that exists WITH THAT GENERATION - so
-   the re-use of a fabric index is covered by the invariant itself.  It holds after every history
-   without restart / factory reset, store faults included; a restart keeps it when the stored
-   resumption records fit the stored fabrics (`RecOK`).
+   the re-use of a fabric index is covered by the invariant itself.  `C07_full_noDangling_holds`: it
+   holds after EVERY history without factory reset - store faults, restarts and crash points together.
 -/
 namespace C07
 open Admin
@@ -106,14 +105,14 @@ theorem rollback_gone (cfg : Cfg) (n : Node) (a : Armed) (fs : List Fabric) (h0 
 /-- **A new fabric starts clean**: when AddNOC creates the fabric `idx` in a `NoRef` state, the only
 non-expired session bound to `idx` afterwards is the session `sid` that issued the command (the PASE
 session promoted by it), and no resumption record is bound to `idx`. -/
-theorem new_fabric_starts_clean (cfg : Cfg) (n : Node) (sid s ca fid node subj ser idx : Nat) (mode : Mode)
-    (h : NoRef n) (hacc : (sessOp cfg n sid mode (.addnoc s ca fid node subj ser)).2 = .okIdx idx) :
-    (∀ s' ∈ (sessOp cfg n sid mode (.addnoc s ca fid node subj ser)).1.sessions,
+theorem addNoc_starts_clean (cfg : Cfg) (n : Node) (sid ca fid node subj ser idx : Nat) (mode : Mode)
+    (h : NoRef n) (hacc : (addNoc cfg n sid mode ca fid node subj ser).2 = .okIdx idx) :
+    (∀ s' ∈ (addNoc cfg n sid mode ca fid node subj ser).1.sessions,
         s'.expired = false → s'.mode.fab = idx → s'.id = sid) ∧
-    (∀ r' ∈ (sessOp cfg n sid mode (.addnoc s ca fid node subj ser)).1.resum, r'.fab ≠ idx) ∧
+    (∀ r' ∈ (addNoc cfg n sid mode ca fid node subj ser).1.resum, r'.fab ≠ idx) ∧
     hasFabric n idx = false := by
-  generalize hres : sessOp cfg n sid mode (.addnoc s ca fid node subj ser) = r at hacc ⊢
-  simp only [sessOp] at hres
+  generalize hres : addNoc cfg n sid mode ca fid node subj ser = r at hacc ⊢
+  simp only [addNoc] at hres
   -- what freshness of the new index gives in a `NoRef` state
   have key : ∀ idx', (if maxIdx n.fabrics < 254 then some (maxIdx n.fabrics + 1)
         else List.find? (fun i => decide (1 ≤ i) && !hasFabric n i) (List.range 255)) = some idx' →
@@ -152,6 +151,32 @@ theorem new_fabric_starts_clean (cfg : Cfg) (n : Node) (sid s ca fid node subj s
     simp only [Status.okIdx.injEq] at hacc
     subst hacc
     exact ⟨fun s' hs' he hf => absurd hf (k1 s' hs' he), k2, k3⟩
+
+/-- the same for the whole command (the retry of a failed resumption-cache store that precedes it
+touches neither the fabric table nor the sessions nor the cache) -/
+theorem new_fabric_starts_clean (cfg : Cfg) (n : Node) (sid s ca fid node subj ser idx : Nat) (mode : Mode)
+    (h : NoRef n) (hacc : (sessOp cfg n sid mode (.addnoc s ca fid node subj ser)).2 = .okIdx idx) :
+    (∀ s' ∈ (sessOp cfg n sid mode (.addnoc s ca fid node subj ser)).1.sessions,
+        s'.expired = false → s'.mode.fab = idx → s'.id = sid) ∧
+    (∀ r' ∈ (sessOp cfg n sid mode (.addnoc s ca fid node subj ser)).1.resum, r'.fab ≠ idx) ∧
+    hasFabric n idx = false := by
+  simp only [sessOp] at hacc ⊢
+  rcases retryResum_cases n with hr | hr
+  · rw [hr] at hacc ⊢
+    exact addNoc_starts_clean cfg n sid ca fid node subj ser idx mode h hacc
+  · rw [hr] at hacc ⊢
+    have h1 := storeResum_noRef n h
+    have ⟨hfr, _⟩ := storeResum_spec n
+    rcases hst : storeResum n with ⟨n1, b⟩
+    rw [hst] at hacc h1 hfr
+    cases b with
+    | false => simp at hacc
+    | true =>
+      have := addNoc_starts_clean cfg n1 sid ca fid node subj ser idx mode h1 hacc
+      refine ⟨this.1, this.2.1, ?_⟩
+      have h3 := this.2.2
+      rw [hasFabric_eq] at h3 ⊢
+      rw [← hfr.fabrics]; exact h3
 
 /-! ## other fabrics -/
 
@@ -225,21 +250,32 @@ theorem no_record_of_another_incarnation (n : Node) (h : NoDangling n) (r : Resu
   rw [hf] at this
   simpa using this.symm
 
-/-- **Restarts included**: for every history in which no store fault fires (`Calm`: the fault
-counter is 0 in every state - decidable), restarts, crash points, corrupted resumption blobs and the
-factory-reset-before-start-up included: nothing dangles.  (Index re-use across a restart is covered:
-the stored resumption records always fit the stored fabrics, `RecOK`.) -/
-theorem noDangling_calm (cfg : Cfg) (ops : List Op) (hno : Op.freset ∉ ops) (hcalm : Calm cfg {} ops) :
+/-- **The full statement: EVERY history** without factory reset - store faults at any write, restarts,
+crash points (restart from ANY element of the store history), corrupted resumption blobs and the
+factory-reset-before-start-up, all together: nothing dangles.  Index re-use across a restart is
+covered: the stored resumption records always fit the stored fabrics (`RecOK`).  This became provable
+with the repair of `C07-failed-purge-on-rollback`: a store of the (purged) resumption cache that
+failed is remembered (`resumStale`) and retried before `AddNOC` makes a new fabric - a stored record
+whose fabric is gone can only be there while the mark is set (`RecLive`), and no fabric index is
+handed out while it is. -/
+def C07_full_noDangling : Prop :=
+  ∀ (cfg : Cfg) (ops : List Op), Op.freset ∉ ops → NoDangling (run cfg {} ops)
+
+theorem C07_full_noDangling_holds : C07_full_noDangling :=
+  fun cfg ops hno => (run_good cfg ops {} genInv_init rec_init hno).1.1
+
+/-- the same under its old name (the `Calm` hypothesis - no store fault fires - is not needed any more) -/
+theorem noDangling_calm (cfg : Cfg) (ops : List Op) (hno : Op.freset ∉ ops) :
     NoDangling (run cfg {} ops) :=
-  (run_good cfg ops {} genInv_init rec_init hno hcalm).1.1
+  C07_full_noDangling_holds cfg ops hno
 
 /-- ... and every store a crash can leave behind is fit for a restart -/
-theorem every_snapshot_recOK (cfg : Cfg) (ops : List Op) (hno : Op.freset ∉ ops) (hcalm : Calm cfg {} ops) :
+theorem every_snapshot_recOK (cfg : Cfg) (ops : List Op) (hno : Op.freset ∉ ops) :
     RecOK (run cfg {} ops).kv ∧ ∀ kv ∈ (run cfg {} ops).hist, RecOK kv := by
-  have ⟨hg, hr⟩ := run_good cfg ops {} genInv_init rec_init hno hcalm
+  have ⟨hg, hr⟩ := run_good cfg ops {} genInv_init rec_init hno
   exact ⟨recOK_of hg hr.live, hr.hist⟩
 
-/-- the hypotheses are satisfiable by a history with removal, restart and re-use of the index -/
+/-- a history with removal, restart, re-use of the index and a crash point -/
 example :
     let ops : List Op := [.boot, .pase, .arm 0 60, .csr 0 false, .root 0 1, .addnoc 0 1 5 10 100 1,
       .caseEst 1 100 1, .complete 1, .flush, .rmfab 1 1, .restart, .boot, .pase, .arm 0 60, .csr 0 false,
@@ -247,21 +283,14 @@ example :
     Op.freset ∉ ops ∧ Calm {} {} ops ∧ (run {} {} ops).fabrics.length = 1 := by
   refine ⟨by decide, by decide, by decide⟩
 
-/-- full statement: for EVERY history without factory reset - store faults and restarts together.
-FALSE of the code (open finding `C07-failed-purge-on-rollback`): when the store of the purged
-resumption cache fails during a fail-safe rollback, the stored blob keeps a record of the dropped
-fabric; after a re-commissioning that re-uses the index and a restart, the record is loaded next to
-the new fabric. -/
-def C07_full_noDangling : Prop :=
-  ∀ (cfg : Cfg) (ops : List Op), Op.freset ∉ ops → NoDangling (run cfg {} ops)
-
-theorem C07_full_noDangling_false : ¬ C07_full_noDangling := by
-  intro h
-  have hd := h {} [.boot, .pase, .arm 0 60, .csr 0 false, .root 0 1, .addnoc 0 1 5 10 100 1, .caseEst 1 100 1,
-    .flush, .kvfail 1, .arm 1 0, .pase, .arm 2 60, .csr 2 false, .root 2 2, .addnoc 2 2 6 11 101 2,
-    .caseEst 1 101 2, .complete 3, .restart] (by decide)
-  have := hd.2 { fab := 1, peer := 100, rid := 1, gen := 1 } (by decide)
-  revert this
-  decide
+/-- the history of the repaired finding `C07-failed-purge-on-rollback` (a store fault during the
+rollback, index re-use, restart): the failed store is retried by the second `AddNOC`, the restart
+loads no record of the dropped fabric -/
+example :
+    let ops : List Op := [.boot, .pase, .arm 0 60, .csr 0 false, .root 0 1, .addnoc 0 1 5 10 100 1, .caseEst 1 100 1,
+      .flush, .kvfail 1, .arm 1 0, .pase, .arm 2 60, .csr 2 false, .root 2 2, .addnoc 2 2 6 11 101 2,
+      .caseEst 1 101 2, .complete 3, .restart]
+    Op.freset ∉ ops ∧ ¬ Calm {} {} ops ∧ (run {} {} ops).resum = [] ∧ (run {} {} ops).fabrics.length = 1 := by
+  refine ⟨by decide, by decide, by decide, by decide⟩
 
 end C07
